@@ -305,7 +305,63 @@ def rule_no_handler(ctx):
               "the server branches on the premaster secret after ClientKeyExchange", srv.loc())
 
 
+def rule_keyhash(ctx):
+    """KEYHASH: the secret that seeds the synthetic (implicit rejection) message is derived from the
+    key's own private exponent at the point of use.  Every write of `_key_hash` is either the `None`
+    reset or lies in RSAKey.decrypt, is computed from `self.d`, and precedes the HMAC that consumes it;
+    the derivation key `kdk` is the HMAC of that secret over the ciphertext."""
+    R = "C11.KEYHASH"
+    writes = []
+    for fi in ctx.index.all_functions():
+        for n in own_nodes(fi.node):
+            tg = []
+            if isinstance(n, ast.Assign):
+                tg = n.targets
+            elif isinstance(n, (ast.AugAssign, ast.AnnAssign)):
+                tg = [n.target]
+            for t in tg:
+                for x in ast.walk(t):
+                    if isinstance(x, ast.Attribute) and x.attr == "_key_hash":
+                        writes.append((fi, n))
+            if isinstance(n, ast.Call) and call_name(n) == "setattr" and len(n.args) >= 2 and \
+                    isinstance(n.args[1], ast.Constant) and n.args[1].value == "_key_hash":
+                writes.append((fi, n))
+    ctx.require(len(writes) >= 2, "C11.KEYHASH: writes of `_key_hash` not found")
+    dec = ctx.index.func("utils.rsakey:RSAKey.decrypt")
+    derived = 0
+    for fi, n in writes:
+        v = getattr(n, "value", None)
+        if isinstance(n, ast.Assign) and isinstance(v, ast.Constant) and v.value is None:
+            ctx.ok(R, "%s: `_key_hash` reset to None" % fi.short, fi.loc(n))
+            continue
+        ok = fi is dec and isinstance(n, ast.Assign) and isinstance(v, ast.Call) and call_name(v) == "secureHash" \
+            and "self.d" in {attr_chain(x) for x in ast.walk(v) if isinstance(x, ast.Attribute)} \
+            and len(v.args) >= 2 and isinstance(v.args[1], ast.Constant) and v.args[1].value in ("sha256", "sha384", "sha512")
+        derived += 1 if ok else 0
+        ctx.check(R, ok, fi.qname, "`%s` derived from self.d inside decrypt" % norm(n)[:60],
+                  "the implicit-rejection secret `_key_hash` is written outside RSAKey.decrypt or not from the "
+                  "key's current private exponent: keys whose numbers are filled in after construction "
+                  "(generate) or copied would answer invalid ciphertexts with a message that is predictable "
+                  "or differs between equal keys", fi.loc(n))
+    g = ctx.an.cfg(dec)
+    uses = [n for n in g.nodes if n.kind == "stmt" and isinstance(n.ast, ast.Assign)
+            and isinstance(n.ast.value, ast.Call) and call_name(n.ast.value) == "secureHMAC"
+            and [norm(a) for a in n.ast.value.args[:2]] == ["self._key_hash", "encBytes"]]
+    ctx.check(R, len(uses) == 1 and derived == 1, dec.qname, "kdk = HMAC(_key_hash, ciphertext)",
+              "the key-derivation key of the synthetic message must be the HMAC of the per-key secret over the "
+              "ciphertext", dec.loc(uses[0].ast) if uses else dec.loc())
+    if uses:
+        # on every path to the HMAC the secret is non-empty: either just derived or tested truthy
+        sets = [n for n in g.nodes if n.kind == "stmt" and isinstance(n.ast, ast.Assign)
+                and any(attr_chain(t) == "self._key_hash" for t in n.ast.targets)]
+        from ..query import falsy_edges, truthy_edges
+        seen = g.reach([g.entry], blocked=sets, cut=truthy_edges(g, "self._key_hash"))
+        ctx.check(R, uses[0].id not in seen, dec.qname, "secret derived on every path on which it is still unset",
+                  "decrypt can reach the HMAC with `_key_hash` unset/empty", dec.loc(uses[0].ast))
+
+
 RULES = [
+    ("C11.KEYHASH", "quick", rule_keyhash),
     ("C11.TAINT", "quick", rule_taint),
     ("C11.HEADER", "quick", rule_header),
     ("C11.NO-SIGNAL", "quick", rule_no_signal),
